@@ -217,6 +217,8 @@ def _maximise_utility_duty(
 
     dt_tar_valid = dt_tar[valid_mask]
     Q_pot_valid = Q_pot[valid_mask]
+    # duty still available at the row the target-temperature limit is evaluated at
+    Q_cur_valid = (current_H - Q_assigned)[valid_mask]
 
     if dt_tar_valid.max() < 0:
         return 0.0
@@ -227,7 +229,7 @@ def _maximise_utility_duty(
     slope_mask = (-dt_tar_valid) > tol
     if np.any(slope_mask):
         Q_tt[slope_mask] = (
-            Q_pot_valid[slope_mask]
+            Q_cur_valid[slope_mask]
             / (-dt_tar_valid[slope_mask])
             * abs(Tt - Ts)
         )
